@@ -1202,6 +1202,23 @@ func (env *Environment) ForceError() {
 	if env.Sm.Current() == "DONE" {
 		return
 	}
+	if env.Sm.Current() == "RUNNING" && env.workflow != nil {
+		// a run is open: close it as a teardown while RUNNING does, each timestamp only if still empty
+		for _, key := range []string{"run_end_time_ms", "run_end_completion_time_ms"} {
+			if v, ok := env.workflow.GetUserVars().Get(key); ok && v == "" {
+				now := time.Now()
+				env.workflow.SetRuntimeVar(key, strconv.FormatInt(now.UnixMilli(), 10))
+				the.EventWriterWithTopic(topic.Run).WriteEventWithTimestamp(&pb.Ev_RunEvent{
+					EnvironmentId:    env.id.String(),
+					RunNumber:        env.currentRunNumber,
+					State:            env.Sm.Current(),
+					Transition:       "GO_ERROR",
+					TransitionStatus: pb.OpStatus_STARTED,
+					LastRequestUser:  env.GetLastRequestUser(),
+				}, now)
+			}
+		}
+	}
 	env.setState("ERROR")
 }
 
